@@ -356,7 +356,11 @@ func (s *seqState) applySeq(op *Op, res *Result) {
 		expectLoads = s.applyBulkRefresh(op, res, loads)
 	case "all", "keys", "values", "hottest", "coldest":
 		unexpectedPanic()
-		s.cmpIter(op, res)
+		if op.D2 > 0 && len(res.Entries) >= 1 {
+			s.cmpIterMid(op, res)
+		} else {
+			s.cmpIter(op, res)
+		}
 	case "setmax":
 		unexpectedPanic()
 		if cfg.bounded() {
@@ -590,6 +594,75 @@ func (s *seqState) cmpIter(op *Op, res *Result) {
 			}
 		case "hottest", "coldest":
 			s.cmpEntry(props, "iter."+op.Kind, e.K, e, me)
+		}
+	}
+}
+
+// cmpIterMid: the caller's loop body moved the clock by op.D2 after the first element. The first
+// element is judged at the clock the iteration started with, every later element at the later
+// clock: an entry whose deadline has been reached by then must not be yielded any more (C03's
+// "iterates over it"), every entry still visible must be (unless the caller stopped early).
+func (s *seqState) cmpIterMid(op *Op, res *Result) {
+	m := s.m
+	m.Probes["iterator-clock-moved-mid-iteration"]++
+	props := P("C01", "C15")
+	if op.Kind == "hottest" || op.Kind == "coldest" {
+		props = P("C01", "C05")
+	}
+	keyOf := func(e EntryView) int {
+		if op.Kind != "values" {
+			return e.K
+		}
+		for _, k := range sortedKeys(m.m) {
+			if m.m[k].V == e.V {
+				return k
+			}
+		}
+		return -1
+	}
+	leak := func(k int) []string {
+		if k >= 0 && m.expiredUnswept(k) != nil {
+			return withProp(props, "C03")
+		}
+		return props
+	}
+	first := res.Entries[0]
+	fk := keyOf(first)
+	if fk < 0 || m.visible(fk) == nil {
+		m.fail(leak(fk), "iter."+op.Kind+"-extra", fk, "%s yielded %+v first, which the model does not hold", op.Kind, first)
+	}
+	m.now = satAdd(m.now, op.D2)
+	want := map[int]bool{}
+	for _, k := range m.visibleKeys() {
+		if k != fk {
+			want[k] = true
+		}
+	}
+	seen := map[int]int{fk: 1}
+	for _, e := range res.Entries[1:] {
+		k := keyOf(e)
+		seen[k]++
+		if k < 0 || !want[k] || seen[k] > 1 {
+			m.fail(leak(k), "iter."+op.Kind+"-extra", k, "%s yielded %+v (x%d) after the loop body had moved the clock by %d; the model does not hold it at that time", op.Kind, e, seen[k], op.D2)
+			continue
+		}
+		if op.Kind == "all" && e.V != m.m[k].V {
+			m.fail(props, "iter.all-value", k, "All yielded %d=%d, model %d", k, e.V, m.m[k].V)
+		}
+	}
+	if op.D > 0 {
+		n := 1 + len(want)
+		if int(op.D) < n {
+			n = int(op.D)
+		}
+		if len(res.Entries) != n {
+			m.fail(props, "iter."+op.Kind+"-count", -1, "%s with early exit after %d and a clock step after the first element yielded %d entries, expected %d", op.Kind, op.D, len(res.Entries), n)
+		}
+		return
+	}
+	for _, k := range sortedKeys(want) {
+		if seen[k] != 1 {
+			m.fail(props, "iter."+op.Kind+"-missing", k, "%s yielded key %d %d times after the clock step, the model still holds it", op.Kind, k, seen[k])
 		}
 	}
 }
